@@ -450,7 +450,7 @@ def fpPackets : Nat → M (Option Int)
             modify fun vf => { vf with vd := some d1, lapped := false }
             if p.gran ≠ -1 ∧ !p.eos then
               let link : Nat := if vf.seekable then vf.current_link.toNat else 0
-              let g0 := if vf.seekable ∧ link > 0 then p.gran - vf.pcmlengths[link * 2]! else p.gran
+              let g0 := if vf.seekable then p.gran - vf.pcmlengths[link * 2]! else p.gran
               let g1 := if g0 < 0 then 0 else g0
               let g2 := g1 - shl d1.pcmout vf.hs + sumLen vf.pcmlengths link
               modify fun vf => { vf with pcm_offset := g2 }
